@@ -1320,6 +1320,8 @@ class Scheduler:
                     break
         competing_lrs = []
         competing_tens_access = {}
+        # Peak of the memory that cannot be moved out of fast storage
+        unmovable_peak = max(base_mem_usage)
 
         # Evict live ranges that will never fit
         for lr in curr_lrs.copy():
@@ -1428,7 +1430,9 @@ class Scheduler:
                 competing_tens_access,
                 self.evicted_fms,
             )
-        assert max(max_mem_usage) <= staging_limit, "Allocation exceeds staging limit"
+        # What cannot be moved may exceed the limit on its own (reported as exceeded SRAM target when the schedule is
+        # checked); the feature maps kept in fast storage must not add to that
+        assert max(max_mem_usage) <= max(staging_limit, unmovable_peak), "Allocation exceeds staging limit"
 
     def print_schedule(self, schedule: Schedule):
         print(f"Schedule: '{schedule.name}'")
